@@ -2025,6 +2025,42 @@ func (g *gen) famNames(id string, rules []string) []*Scenario {
 	return out
 }
 
+// famMultiName (C07 / C09): one field declaration with THREE to FIVE names (`A, B, C T`), at the top level and inside a
+// nested struct, next to single- and two-name declarations: every name is its own field with its own entry — the first,
+// the middle ones and the last (a middle name losing its check, or the last one being checked twice, only shows with
+// three or more names).
+func (g *gen) famMultiName(id string, count int) []*Scenario {
+	var out []*Scenario
+	for s := 0; s < count; s++ {
+		sc := newScenario(fmt.Sprintf("%smn%02d", id, s))
+		g.sc = sc
+		d := &Decl{Name: "Mn"}
+		fi := 0
+		mk := func(k int) *Field {
+			fi++
+			t := g.anyType()
+			var names []string
+			for j := 0; j < k; j++ {
+				names = append(names, fmt.Sprintf("%c%d", 'A'+j, fi))
+			}
+			return &Field{Names: names, Type: t, Markers: g.fieldMarkers(t, 1+g.rng.Intn(2))}
+		}
+		d.Fields = append(d.Fields, mk(3+s%3))
+		if s%2 == 0 {
+			d.Fields = append(d.Fields, mk(1+g.rng.Intn(2)))
+		}
+		if s%3 != 1 {
+			fi++
+			d.Fields = append(d.Fields, &Field{Names: []string{fmt.Sprintf("N%d", fi)}, Nested: []*Field{mk(3 + g.rng.Intn(2)), mk(1)}})
+		}
+		d.Fields = append(d.Fields, mk(3))
+		sc.Decls = []*Decl{d}
+		sc.Values["Mn"] = g.structValues(d, 8)
+		out = append(out, sc)
+	}
+	return out
+}
+
 // corpusRepeat (C17): the same rule at struct level AND on a field of slice / map / func / pointer type (redundant but legal:
 // the rule is written and reported twice), with nil and empty values
 func (g *gen) corpusRepeat(id string) []*Scenario {
